@@ -7,6 +7,7 @@ mod field;
 mod pipeline;
 mod curves;
 mod oracle;
+mod irdump;
 
 fn main() {
     util::install_panic_hook();
@@ -28,6 +29,7 @@ fn main() {
         "pipeline" => pipeline::run(a(2), a(3)),
         "curves" => curves::run(a(2), a(3)),
         "produce" => oracle::run(a(2), a(3)),
+        "irdump" => irdump::run(a(2), a(3)),
         _ => {
             eprintln!("unknown command {cmd}");
             std::process::exit(2);
